@@ -21,10 +21,13 @@ ENUM = {
     "quick": [dict(module="MC_Matching", cfg="MC_Matching_quick.cfg", workers=12),
               dict(module="MC_Matching", cfg="MC_Matching_quick_boxes.cfg", workers=4),
               dict(module="MC_Matching", cfg="MC_Matching_quick_degenerate.cfg", workers=8),
+              dict(module="MC_Matching", cfg="MC_Matching_buffered2.cfg", workers=4),
               dict(module="MC_Matching", cfg="MC_Matching_sim3.cfg", workers=4, simulate="num=300", depth=30)],
     # coverage (an action never taken = failure) on the small config only: TLC's interim coverage reports of a long run contain zeros
     "thorough": [dict(module="MC_Matching", cfg="MC_Matching_quick_boxes.cfg", workers=4, coverage=True),
                  dict(module="MC_Matching", cfg="MC_Matching_quick_degenerate.cfg", workers=8),
+                 dict(module="MC_Matching", cfg="MC_Matching_buffered2.cfg", workers=4),
+                 dict(module="MC_Matching", cfg="MC_Matching_buffered4.cfg", workers=8),
                  dict(module="MC_Matching", cfg="MC_Matching_thorough.cfg", workers=16),
                  dict(module="MC_Matching", cfg="MC_Matching_thorough_n5.cfg", workers=16),
                  dict(module="MC_Matching", cfg="MC_Matching_thorough_boxes.cfg", workers=16),
@@ -39,7 +42,10 @@ RULE = ("every pair of lists (lengths 0..2 each over the proper intervals of 0..
         "(0..4 geometries a side, all nine kinds, arbitrary doubles); non-trivial = both lists non-empty")
 TRUSTED_BASE = ["checks/c07.py (build lists, list(match_geometries(...)), compute_affinity of every pair, encode; "
                 "indices +1, None -> [])"]
-ASSUMPTIONS = ["every geometry object is constructed, derived by model_copy / attribute assignment from a used geometry elsewhere, or "
+ASSUMPTIONS = ["'buffered' lattice lists (TimeStamp / Point / MultiPoint / axis-parallel LineString / box, time buffer 2 or 4 ticks, i.e. up "
+               "to 4 s) are restricted to lists whose cross pairs all have a time-only side, where the exact value is the IoU of the "
+               "grown time extents; random lists with buffers of 1.5..4 s are judged on the observed matrix only",
+               "every geometry object is constructed, derived by model_copy / attribute assignment from a used geometry elsewhere, or "
                "deep-copied (case fields sp, tp); the reference affinities are computed on equal geometries constructed afresh: the "
                "affinity of a pair is taken to be a function of the two geometries as values",
                "'twin' lists (different kinds, identical coordinate literals) run at unit 1 s / 1 Hz with buffers 0.25 s / 0.5 Hz and are "
@@ -81,6 +87,8 @@ _make_real = lambda r: _mk(r["type"], r["coordinates"])
 def _random(case):
     rng = random.Random(case["seed"])
     tb, fb = rng.uniform(0.05, 0.5), rng.uniform(50.0, 500.0)
+    if case["big"]:                                  # buffers well beyond 1 s
+        tb = rng.uniform(1.5, 4.0)
 
     def one(kind):
         for _ in range(50):
@@ -127,7 +135,8 @@ def _random(case):
 
 def execute(case):
     if case["kind"] == "lat":
-        return {"runs": [_run(case["src"], case["tgt"], case["sp"], case["tp"], (lambda r, tu=tu: build(r, tu)), 5, 0, 0)
+        return {"runs": [_run(case["src"], case["tgt"], case["sp"], case["tp"], (lambda r, tu=tu: build(r, tu)), 5,
+                              case["tb"] * tu, case["fb"] * FREQ_UNIT)
                          for tu in TIME_UNITS]}
     if case["kind"] == "twin":                       # unit 1 s / 1 Hz: the literals of the two kinds stay equal
         return {"runs": [_run(case["src"], case["tgt"], case["sp"], case["tp"], (lambda r: build(r, 1.0, 1.0)), 5, 0.25, 0.5)]}
@@ -162,7 +171,7 @@ def random_cases(rng, tier):
                 sa, ia, sb, ib = sb, ib, sa, ia
             tw = [[sa, ia, sb, ib]]
         yield {"kind": "rnd", "seed": rng.randrange(1, 2**31 - 1), "ks": ks, "kt": kt,
-               "dup": rng.random() < 0.3 and not (deg[0] or deg[1] or tw), "deg": deg, "tw": tw,
+               "dup": rng.random() < 0.3 and not (deg[0] or deg[1] or tw), "deg": deg, "tw": tw, "big": rng.random() < 0.25,
                "sp": [rng.choice([0, 0, 1, 2, 3]) for _ in ks], "tp": [rng.choice([0, 0, 1, 2, 3]) for _ in kt]}
 
 
